@@ -47,8 +47,8 @@ struct Violation {
 
 struct Harness;
 inline Harness *g_H = nullptr;
-inline char g_cur[4096];  // descriptor of the case in flight (for crash handlers)
-inline long g_cur_idx = -1;
+inline thread_local char g_cur[4096];  // descriptor of the case in flight (for crash handlers; per thread)
+inline thread_local long g_cur_idx = -1;
 inline char g_crash_path[1024];
 
 inline void crash_note(const char *what) {
